@@ -346,9 +346,16 @@ async def _interp(ctx, ev, acts, inv, rec: Rec, step_name: str):
                 inv["sent"].append(_uid_of(e))
                 ctx.send_event(e, step=target)
         elif k == "stream":
-            e = rec.mk(act[1], "stream", by=by)
+            e = rec.mk(act[1], "stream", by=by, **(act[2] if len(act) > 2 and act[2] else {}))
             inv["streamed"].append(_uid_of(e))
             ctx.write_event_to_stream(e)
+        elif k == "wait_terminal":
+            # the body parks until a consumer of the run's stream has SEEN a terminal event (it is told out of band), i.e. it becomes
+            # runnable only after the run's terminal event was published; a body that is cancelled with the run never gets here
+            gate = getattr(rec, "terminal_seen", None)
+            if gate is None:
+                gate = rec.terminal_seen = asyncio.Event()
+            await gate.wait()
         elif k == "fail":
             _, upto, exc_name = act
             if upto is None or inv["attempt"] < upto:
@@ -552,6 +559,11 @@ async def consume_stream(rec: Rec, handler) -> None:
     try:
         async for ev in handler.stream_events(expose_internal=True):
             rec.stream.append((VClock.t, ev))
+            if type(ev).__name__ in ("WorkflowFailedEvent", "WorkflowTimedOutEvent", "WorkflowCancelledEvent", "GStop", "StopEvent"):
+                gate = getattr(rec, "terminal_seen", None)
+                if gate is None:
+                    gate = rec.terminal_seen = asyncio.Event()
+                gate.set()
         rec.consumer_done = True
     except asyncio.CancelledError:
         raise
@@ -712,7 +724,9 @@ async def run_program(spec: dict, rec: Rec, *, runtime=None, retry_builder=None,
     rec.consumer_finished = consumer.done()
     try:
         rec.publish_left = handler._external_adapter._queues.publish_queue.qsize()
-        rec.publish_left_types = sorted({type(x).__name__ for x in list(getattr(handler._external_adapter._queues.publish_queue, "_queue", []))})
+        _left = list(getattr(handler._external_adapter._queues.publish_queue, "_queue", []))
+        rec.publish_left_types = sorted({type(x).__name__ for x in _left})
+        rec.publish_left_reaction = any(type(x).__name__ == "Note" and x.get("reaction", None) for x in _left)
     except Exception:  # noqa: BLE001
         rec.publish_left = None
     for t in (consumer, stim):
